@@ -354,7 +354,7 @@ func deepBurst(c StressCase) *report.Failure {
 	nest := func(open, mid, close string, n int) string {
 		return strings.Repeat(open, n) + mid + strings.Repeat(close, n)
 	}
-	queries := []string{nest("NOT (", "a:[1 TO 5]", ")", 130), nest("(", "a:b OR c:d", ")", 130), nest("a:1 AND (", "b:2", ")", 130), nest("+(", "a:(x OR y)", ")", 130)}
+	queries := []string{nest("NOT (", "a:[1 TO 5]", ")", 170), nest("(", "a:b OR c:d", ")", 170), nest("a:1 AND (", "b:2", ")", 170), nest("+(", "a:(x OR y)", ")", 170)}
 	type res struct{ r, p, t string }
 	ref := make([]res, len(queries))
 	trees := make([]*expr.Expression, len(queries))
@@ -376,12 +376,9 @@ func deepBurst(c StressCase) *report.Failure {
 		trees[i] = t
 		ref[i] = one(i)
 	}
-	workers := c.Goroutines
-	if workers < 8 {
-		workers = 8
-	}
-	if workers > 32 {
-		workers = 32
+	workers := 32
+	if runtime.GOMAXPROCS(0) < 4 {
+		defer runtime.GOMAXPROCS(runtime.GOMAXPROCS(8))
 	}
 	fails := make([]string, workers)
 	start := make(chan struct{})
